@@ -554,7 +554,12 @@ class DestHandler:
             self._handle_fd_or_eof_pdu(pdu_holder)
         if self.states.step == TransactionStep.WAITING_FOR_METADATA:
             self._handle_waiting_for_missing_metadata(pdu_holder)
-            self._deferred_lost_segment_handling()
+            if self.states.step in [
+                TransactionStep.WAITING_FOR_METADATA,
+                TransactionStep.WAITING_FOR_MISSING_DATA,
+            ]:
+                # Not if a fault declared for the Metadata PDU cancelled or abandoned the transaction
+                self._deferred_lost_segment_handling()
         if self.states.step == TransactionStep.RECV_FILE_DATA_WITH_CHECK_LIMIT_HANDLING:
             self._check_limit_handling()
         if self.states.step == TransactionStep.WAITING_FOR_MISSING_DATA:
@@ -1104,12 +1109,16 @@ class DestHandler:
         ):
             file_delivery_complete = True
         else:
-            crc32 = self.user.vfs.calculate_checksum(
-                self._params.checksum_type,
-                self._params.fp.file_name,
-                self._params.fp.progress,
-            )
-            if crc32 == self._params.fp.crc32:
+            try:
+                crc32 = self.user.vfs.calculate_checksum(
+                    self._params.checksum_type,
+                    self._params.fp.file_name,
+                    self._params.fp.progress,
+                )
+            except FileNotFoundError:
+                # The file could not be created (filestore rejection), so there is nothing to verify
+                crc32 = None
+            if crc32 is not None and crc32 == self._params.fp.crc32:
                 file_delivery_complete = True
             else:
                 self._declare_fault(ConditionCode.FILE_CHECKSUM_FAILURE)
